@@ -2,12 +2,12 @@
 // OpenSSL itself (on a thread of its own), so that the client can do what QSslSocket never does: send its request and
 // then only a TLS close_notify (the TCP connection stays open) while it waits for the answer, half-close the TCP
 // connection, or split the request over records of its own choosing.  The same exchange is made over plain TCP.
-//   case ::= ( request ending delayMs (recordLen ..) )
+//   case ::= ( request ending delayMs (recordLen ..) expect200 [surplus] )      surplus: bytes the client sends beyond its request
 //     ending: 0 the client just waits; 1 close_notify after the request, TCP left open; 2 close_notify, then the writing
 //             side of the TCP connection is shut down; 3 the writing side is shut down without a close_notify
 //     delayMs: the handler answers that long after it was called (0: at once, from inside process())
 //     recordLen..: the request is written in pieces of these lengths (one TLS record each), the rest in one piece
-//   obs  ::= ( handshakeCompleted (handlerCalls status body) (handlerCalls status body) )      TLS first, plain second
+//   obs  ::= ( handshakeCompleted (handlerCalls status body end) (handlerCalls status body end) )   end: 0 orderly, 1 reset, 2 time-out      TLS first, plain second
 #include <QCoreApplication>
 #include <QElapsedTimer>
 #include <QFile>
@@ -28,6 +28,7 @@
 #include <poll.h>
 #include <sys/socket.h>
 #include <unistd.h>
+#include <cerrno>
 #include <openssl/err.h>
 #include <openssl/ssl.h>
 #include "families.h"
@@ -46,10 +47,12 @@ protected:
     {
         ++calls;
         QPointer<Socket> s(socket);
-        auto answer = [s]() {
+        bool big = socket->path().startsWith("/big");
+        auto answer = [s, big]() {
             if (!s) return;
-            s->setHeader("Content-Length", "2");
-            s->write("ok");
+            QByteArray body = big ? QByteArray(3 * 1024 * 1024, 'x') : QByteArray("ok");
+            s->setHeader("Content-Length", QByteArray::number(body.size()));
+            s->write(body);
             s->close();
         };
         if (delay <= 0) answer(); else QTimer::singleShot(delay, this, answer);
@@ -57,10 +60,10 @@ protected:
     int delay;
 };
 
-struct ClientResult { bool handshake = false; QByteArray got; };
+struct ClientResult { bool handshake = false; QByteArray got; int end = 2; };      // end: 0 orderly end of stream, 1 error (reset), 2 nothing was read / time-out
 
 // blocking client on its own thread; [tls] false: the same over plain TCP (close_notify has no counterpart there)
-void rawClient(quint16 port, bool tls, const QByteArray &request, int ending, const std::vector<int> &pieces, ClientResult *out, std::atomic<bool> *done)
+void rawClient(quint16 port, bool tls, const QByteArray &request, int ending, const std::vector<int> &pieces, qint64 surplus, ClientResult *out, std::atomic<bool> *done)
 {
     int fd = ::socket(AF_INET, SOCK_STREAM, 0);
     sockaddr_in a{};
@@ -86,14 +89,30 @@ void rawClient(quint16 port, bool tls, const QByteArray &request, int ending, co
             auto put = [&](const char *p, int n) { if (n <= 0) return; if (tls) SSL_write(ssl, p, n); else { ssize_t r = ::send(fd, p, size_t(n), MSG_NOSIGNAL); (void)r; } };
             for (int len : pieces) { int n = qMin(len, request.size() - pos); put(request.constData() + pos, n); pos += n; }
             put(request.constData() + pos, request.size() - pos);
+            if (surplus > 0) {       // bytes beyond the request (a pipelined request, garbage): the server has no use for them
+                QByteArray junk(16384, 'j');
+                for (qint64 sent = 0; sent < surplus; sent += junk.size()) put(junk.constData(), junk.size());
+            }
             if (tls && (ending == 1 || ending == 2)) SSL_shutdown(ssl);          // sends close_notify, does not wait for the peer's
             if (ending == 2 || ending == 3) ::shutdown(fd, SHUT_WR);
             char buf[4096];
             for (;;) {
                 int n = tls ? SSL_read(ssl, buf, sizeof buf) : int(::recv(fd, buf, sizeof buf, 0));
-                if (n <= 0) break;
+                if (n <= 0) {
+                    if (tls) {
+                        int err = errno;
+                        int e = SSL_get_error(ssl, n);
+                        // an end of the TCP stream without a close_notify counts as orderly here: the question is FIN or RST
+                        if (e == SSL_ERROR_ZERO_RETURN) out->end = 0;
+                        else if (err == ECONNRESET || err == EPIPE) out->end = 1;
+                        else if (err == EAGAIN || err == EWOULDBLOCK) out->end = 2;
+                        else out->end = 0;
+                    }
+                    else out->end = n == 0 ? 0 : (errno == EAGAIN || errno == EWOULDBLOCK ? 2 : 1);
+                    break;
+                }
                 out->got.append(buf, n);
-                if (out->got.size() > (1 << 20)) break;
+                if (out->got.size() > (16 << 20)) break;
             }
         }
     }
@@ -103,7 +122,7 @@ void rawClient(quint16 port, bool tls, const QByteArray &request, int ending, co
     done->store(true);
 }
 
-Val oneExchange(bool tls, const QByteArray &request, int ending, int delayMs, const std::vector<int> &pieces, bool *handshake)
+Val oneExchange(bool tls, const QByteArray &request, int ending, int delayMs, const std::vector<int> &pieces, qint64 surplus, bool *handshake)
 {
     QObject scope;
     DelayedHandler handler(delayMs, &scope);
@@ -112,15 +131,18 @@ Val oneExchange(bool tls, const QByteArray &request, int ending, int delayMs, co
     if (!server.listen(QHostAddress::LocalHost, 0)) throw std::runtime_error("nolisten");
     ClientResult res;
     std::atomic<bool> done(false);
-    std::thread t(rawClient, server.serverPort(), tls, request, ending, pieces, &res, &done);
+    std::thread t(rawClient, server.serverPort(), tls, request, ending, pieces, surplus, &res, &done);
     QElapsedTimer timer; timer.start();
     while (!done.load() && timer.elapsed() < 9000) QCoreApplication::processEvents(QEventLoop::AllEvents, 5);
     t.join();
     for (int i = 0; i < 5; ++i) QCoreApplication::processEvents(QEventLoop::AllEvents, 5);
+    if (ending >= 2) res.end = 0;          // after the client's own half-close how the stream ends is the TLS library's business: not compared
     if (handshake) *handshake = res.handshake;
     int status = res.got.startsWith("HTTP/1.") ? res.got.mid(9, 3).toInt() : 0;
     int i = res.got.indexOf("\r\n\r\n");
-    return Val::List({Val::Int(handler.calls), Val::Int(status), Val::Bytes(i >= 0 ? res.got.mid(i + 4) : QByteArray())});
+    QByteArray body = i >= 0 ? res.got.mid(i + 4) : QByteArray();
+    if (body.size() > 4096) body = "len=" + QByteArray::number(body.size());
+    return Val::List({Val::Int(handler.calls), Val::Int(status), Val::Bytes(body), Val::Int(res.end)});
 }
 }
 
@@ -131,8 +153,9 @@ static Val run_tlsraw(const Val &c)
     std::vector<int> pieces;
     for (auto &p : c.at(3).l) pieces.push_back(int(p.asInt()));
     bool hs = false;
-    Val a = oneExchange(true, request, ending, delayMs, pieces, &hs);
-    Val b = oneExchange(false, request, ending, delayMs, pieces, nullptr);
+    qint64 surplus = c.size() > 5 ? c.at(5).asInt() : 0;
+    Val a = oneExchange(true, request, ending, delayMs, pieces, surplus, &hs);
+    Val b = oneExchange(false, request, ending, delayMs, pieces, surplus, nullptr);
     return Val::List({Val::Bool(hs), a, b});
 }
 
